@@ -127,6 +127,33 @@ theorem query_feeds_back (segs : List Bytes) (hs : Small segs) (hne : segs ≠ [
   unfold Spec.Uri.splitQuery composeQuery
   exact this
 
+/-- (P2) "reads only the bytes of the length-delimited input": for **every** input string, every output buffer
+size and every segment list, no transcribed function reads or writes outside what it was given — not the four
+splitters (dots, check_segment, decode_segment, coap_replace_percents walk a pointer over the exact-size input)
+and not the two reconstruction functions (length pass = write pass). -/
+theorem no_overread (input : Bytes) (buflen : Nat) (segs : List Bytes) (hs : Small segs) :
+    MU.splitPath input buflen ≠ R.oob ∧ MU.splitQuery input buflen ≠ R.oob ∧
+    pathOpts input ≠ R.oob ∧ queryOpts input ≠ R.oob ∧ getUriPath segs ≠ R.oob ∧ getQuery segs ≠ R.oob := by
+  rw [splitPathBuf_fold, splitQueryBuf_fold, pathOpts_fold, queryOpts_fold, get_uri_path_eq_spec segs hs,
+    get_query_eq_spec segs hs]
+  simp
+
+/-- the buffer-writing variants coap_split_path / coap_split_query, for every buffer size: the result is a fold
+over the raw segments of a step that depends on the segment's bytes only — a segment is decoded by the RFC's
+`pctDecode` and appended if it is well formed and fits, a dot segment is dropped / backs up.
+FULL STATEMENT (not proved, checked differentially on every run incl. all buffer sizes 0..need+2):
+  `buflen ≥ input.length + 3 * (rawSegs pathStop pathSep input).length → Spec.Uri.splitPath input = some segs →
+   MU.splitPath input buflen = R.ok segs`  — missing is the arithmetic that such a buffer never runs out. -/
+theorem split_path_buf_eq_spec_partial (input : Bytes) (buflen : Nat) :
+    MU.splitPath input buflen =
+      R.ok ((rawSegs pathStop pathSep input).foldl (fun s seg => pathStepBuf seg s) ⟨buflen, []⟩).segs ∧
+    MU.splitQuery input buflen =
+      R.ok ((rawSegs queryStop querySep input).foldl (fun s seg => writeS seg s) ⟨buflen, []⟩).segs :=
+  ⟨splitPathBuf_fold input buflen, splitQueryBuf_fold input buflen⟩
+
+example : MU.splitPath [0x61, 0x62, 0x25, 0x34] 100 = R.ok [] := by decide      -- "ab%4": dropped (D16a), no read past the end
+example : MU.splitPath [0x61, 0x2f, 0x62, 0x25, 0x34, 0x31] 100 = R.ok [[0x61], [0x62, 0x41]] := by decide   -- "a/b%41"
+
 example : pathOpts [0x25, 0x32, 0x35, 0x34, 0x31] = R.ok [[0x25, 0x34, 0x31]] := by decide   -- "%2541" → "%41", not "A"
 example : pathOpts [0x61, 0x2f, 0x2e, 0x2e, 0x2f, 0x25, 0x32, 0x65, 0x2f, 0x62] = R.ok [[0x62]] := by decide   -- "a/../%2e/b"
 example : Spec.Uri.splitPath [0x61, 0x2f, 0x25, 0x25, 0x32, 0x45] = none := by decide            -- "a/%%2E" is malformed …
@@ -137,5 +164,40 @@ example : getQuery [[0x61, 0x26, 0x62]] = R.ok (some [0x61, 0x25, 0x32, 0x36, 0x
 example : getQuery [[0x61], [0x62]] = R.ok (some [0x61, 0x26, 0x62]) := by decide
 example : getQuery [[], [0x61]] = R.ok (some [0x26, 0x61]) := by decide
 example : getUriPath [[], []] = R.ok [0x2f] ∧ getUriPath [[]] = R.ok [] ∧ getUriPath [] = R.ok [] := by decide
+
+/-! ### coap_split_uri (partial) -/
+
+def toParts (u : MU.Uri) : UriParts := ⟨u.scheme, u.host, u.port, u.path, u.query⟩
+
+/-- M and S agree on one URI string (accept / reject and every field) -/
+def agree (proxy : Bool) (s : Bytes) : Prop :=
+  (MU.splitUriSub proxy s).toOption.map toParts = Spec.Uri.splitUri Generated.Uri.schemes proxy s
+
+instance (proxy : Bool) (s : Bytes) : Decidable (agree proxy s) := by unfold agree; infer_instance
+
+/-- PARTIAL.  Full statement (not proved; compared on every run by the differential test on generated URIs, hosts
+naming a Unix socket excluded, D16f):
+  `split_uri_eq_spec : ∀ proxy s, ¬ unixHost s → agree proxy s`
+i.e. coap_split_uri accepts exactly the strings RFC 3986 §3 / RFC 7252 §6 structure (D4) admits — scheme from the
+table (T1), "://", non-empty host or bracketed IPv6 literal, decimal port ≤ 65535 else the scheme's default, path
+and query delimiters, well-formed escapes — and reports the same fields.  Proved here: the instances below, one per
+clause, among them the inputs of the three defects fixed in coap_split_uri ("coap://h?q" accepted, "coap://[?]?x"
+gives the query "x", "coap://h/[percent]zz" rejected). -/
+theorem split_uri_eq_spec_partial :
+    agree false [99, 111, 97, 112, 58, 47, 47, 104, 63, 113] ∧
+    agree false [99, 111, 97, 112, 58, 47, 47, 91, 63, 93, 63, 120] ∧
+    agree false [99, 111, 97, 112, 58, 47, 47, 104, 47, 37, 122, 122] ∧
+    agree false [99, 111, 97, 112, 115, 58, 47, 47, 91, 58, 58, 49, 93, 58, 55, 55, 47, 97, 47, 98, 63, 99, 38, 100] ∧
+    agree false [99, 111, 97, 112, 58, 47, 47, 104, 58, 54, 53, 53, 51, 53, 47, 120] ∧
+    agree false [99, 111, 97, 112, 58, 47, 47, 104, 58, 54, 53, 53, 51, 54, 47, 120] ∧
+    agree false [104, 116, 116, 112, 58, 47, 47, 104, 47] ∧
+    agree false [47, 97, 47, 98, 63, 99] ∧
+    agree false [99, 111, 97, 112, 58, 47, 47] ∧
+    agree false [99, 111, 97, 112, 120, 58, 47, 47, 104, 47] ∧
+    agree false [99, 111, 97, 112, 43, 119, 115, 58, 47, 47, 104] ∧
+    agree false [99, 111, 97, 112, 58, 47, 47, 91, 58, 58, 49, 47, 120] ∧
+    agree false [99, 111, 97, 112, 58, 47, 47, 104, 58, 49, 50, 120] ∧
+    agree true [104, 116, 116, 112, 58, 47, 47, 104, 58, 56, 48, 56, 48, 47, 112, 63, 113] ∧
+    agree true [47, 97] := by decide
 
 end Coap.C16
